@@ -68,6 +68,8 @@ def invocations():
     """(tool, writes?, callable(root, inp_form, out_kind) -> None, main input name, out kinds)"""
     def P(root, n, f): return form_path(root, n, f)
     def O(root, kind, name):
+        if kind == "explicit-parent":
+            return os.path.join(root, "chk_runs")        # an existing directory that holds the checkpoint (the run directory)
         return None if kind == "default" else (name if kind == "explicit-rel" else os.path.join(root, name))
     inv = []
     inv.append(("colander", lambda r, f, o: tools.colander(P(r, "plt00010", f), O(r, o, "out_col"), ["temp", "density"]),
@@ -102,6 +104,8 @@ def invocations():
                 "restart7", ["default"]))
     inv.append(("chk2plt-parentchk", lambda r, f, o: tools.chk2plt(P(r, "chk_runs/sim00100", f), O(r, o, "out_plt")),
                 "chk_runs/sim00100", ["default"]))
+    inv.append(("chk2plt-intorundir", lambda r, f, o: tools.chk2plt(P(r, "chk_runs/sim00100", f), O(r, o, "out_plt")),
+                "chk_runs/sim00100", ["explicit-parent"]))
     inv.append(("marinate", lambda r, f, o: tools.marinate(P(r, "plt00010", f)), "plt00010", ["default"]))
     inv.append(("taste", lambda r, f, o: tools.taste(P(r, "plt00010", f), boxes_coordinates=True), "plt00010", ["none"]))
     inv.append(("pestle", lambda r, f, o: tools.pestle(P(r, "plt00010", f), "density", None, True), "plt00010", ["none"]))
@@ -139,6 +143,11 @@ FAILING = [
     # the default output of the conversion is the reference plotfile of the same step / the reference is named as output
     ("chk2plt-default-is-reference", None, lambda r: tools.chk2plt("chk00007", None, ref="plt00007")),
     ("chk2plt-output-is-reference", None, lambda r: tools.chk2plt("chk00007", "plt00007/", ref="plt00007")),
+    # ... with the checkpoint and the reference plotfile named in different forms (one relative to the working directory,
+    # the other absolute; through a `.` component)
+    ("chk2plt-default-is-reference-mixed-forms", None, lambda r: tools.chk2plt("chk00007", None, ref=os.path.join(r, "plt00007"))),
+    ("chk2plt-default-is-reference-mixed-forms-2", None, lambda r: tools.chk2plt(os.path.join(r, "chk00007"), None, ref="./plt00007")),
+    ("chk2plt-output-is-reference-mixed-forms", None, lambda r: tools.chk2plt("chk00007", os.path.join(r, "plt00007"), ref="plt00007")),
     ("marinate-device-full", lambda r: os.symlink("/dev/full", os.path.join(r, "plt00010.pkl")), lambda r: tools.marinate("plt00010")),
     ("whip-device-full", lambda r: os.symlink("/dev/full", os.path.join(r, "out_grid.npy")), lambda r: tools.whip("plt00010", "temp", "out_grid")),
     ("pestle-truncated", lambda r: _truncate(r, "plt00010", "Cell_D", 24), lambda r: tools.pestle("plt00010", "volFrac")),        # the last field: its data end the file
@@ -222,7 +231,7 @@ def allowed_roots(root, tool, out_kind, inp_name):
         return []
     if out_kind != "default":
         return [os.path.join(root, n) for n in ("out_col", "out_col2", "out_cmb", "out_cmb4", "out_cmb5", "out_ck", "out_cks", "out_arr", "out_slc", "out_arr2",
-                                                "out_grid", "out_plt", "plt00010.pkl")]
+                                                "out_grid", "out_plt", "plt00010.pkl", "chk_runs")]
     # documented defaults: beside the input (same parent directory) or in the working directory, never inside the input
     base = tool.split("-")[0]
     if base == "chef":
